@@ -19,15 +19,19 @@ invariant('PartBatcher', 'batch_under_construction_is_short_of_full',
           'implies(self._in_progress_batch is not None, '
           '        not isnone(self._output_batch_size) and batch_wf(self._in_progress_batch) and '
           '        1 <= len(self._in_progress_batch.parts) and len(self._in_progress_batch.parts) < self._output_batch_size)')
-invariant('PartBatcher', 'slots_wellformed',
-          'implies(self._part is not None, item_wf(self._part)) and implies(self._output is not None, item_wf(self._output))')
-invariant('PartBatcher', 'slots_are_distinct_objects',
+invariant('PartBatcher', 'input_wellformed', 'implies(self._part is not None, item_wf(self._part))')
+invariant('PartBatcher', 'batch_under_construction_is_a_separate_object',
           'implies(self._in_progress_batch is not None, '
-          '  self._in_progress_batch is not self._part and self._in_progress_batch is not self._output and '
+          '  self._in_progress_batch is not self._part and '
           '  implies(self._part is not None and typed(self._part, "Batch"), '
-          '          bparts(self._part) is not self._in_progress_batch.parts) and '
-          '  implies(self._output is not None and typed(self._output, "Batch"), '
-          '          bparts(self._output) is not self._in_progress_batch.parts))')
+          '          bparts(self._part) is not self._in_progress_batch.parts))')
+# lists of different element types share one heap: the part lists of the held batches are not the batcher's own lists
+specfn('not_own_list', ['d', 'l'],
+       'l is not d._value_history and l is not d._downstream and l is not d._upstream and '
+       'l is not d._received_part_callbacks')
+invariant('PartBatcher', 'part_lists_are_not_the_devices_own_lists',
+          'implies(self._part is not None and typed(self._part, "Batch"), not_own_list(self, bparts(self._part))) and '
+          'implies(self._in_progress_batch is not None, not_own_list(self, self._in_progress_batch.parts))')
 
 B_INVS = {n: t for n, t, s in SPECS.invariants['PartBatcher']}
 
@@ -53,3 +57,143 @@ contract('PartBatcher._get_part_from_input', props=['C17'], args={}, result='ref
                  'self._output is old(self._output) and self._in_progress_batch is old(self._in_progress_batch)',
          },
          modifies=['self._part', 'bparts(self._part)[]'])
+
+# --------------------------------------------------------------------------- put one leaf into the output side
+# oldlen = number of parts collected before the call
+OLDLEN = 'old(ite(self._in_progress_batch is None, 0, len(self._in_progress_batch.parts)))'
+RECV = 'ite(self._in_progress_batch is None, cast(self._output, "ref:Batch"), self._in_progress_batch)'   # batch that got the part
+contract('PartBatcher._add_part_to_output', props=['C17'], args={'part': 'ref:Part'}, modular=True,
+         requires={'initialised': 'self._env is not None and alive(self._env)',
+                   'output_slot_free': 'self._output is None',
+                   'leaf_exists': 'part is not None and alive(part) and part is not self._in_progress_batch and '
+                                  'implies(typed(part, "Batch") and self._in_progress_batch is not None, '
+                                  '        bparts(part) is not self._in_progress_batch.parts)'},
+         ensures={
+             'single_mode_outputs_the_part_itself':
+                 'implies(isnone(self._output_batch_size), self._output is part and self._in_progress_batch is None)',
+             'batch_mode_collects_into_a_new_batch_or_the_one_under_construction':
+                 f'implies(not isnone(self._output_batch_size), '
+                 f'  ite(old(self._in_progress_batch is None), fresh({RECV}) and exact_type({RECV}, "Batch") and '
+                 f'      fresh({RECV}.parts) and {RECV}._env is self._env, {RECV} is old(self._in_progress_batch)))',
+             'no_external_calls': 'trace_len() == old(trace_len())',
+             'batch_mode_appends_at_the_back':
+                 f'implies(not isnone(self._output_batch_size), '
+                 f'  len({RECV}.parts) == {OLDLEN} + 1 and {RECV}.parts[{OLDLEN}] is part and '
+                 f'  all({RECV}.parts[j] is old(self._in_progress_batch.parts[j]) for j in range({OLDLEN})))',
+             'batch_is_closed_exactly_when_it_reaches_n':
+                 f'implies(not isnone(self._output_batch_size), '
+                 f'  iff(self._output is not None, {OLDLEN} + 1 == self._output_batch_size) and '
+                 f'  iff(self._in_progress_batch is None, {OLDLEN} + 1 == self._output_batch_size) and '
+                 f'  implies(self._output is not None, len(bparts(self._output)) == self._output_batch_size))',
+             'input_side_untouched': 'self._part is old(self._part)',
+         },
+         modifies=['self._output', 'self._in_progress_batch', 'self._in_progress_batch.parts[]', '*.Asset._id_counter', '$trace'])
+
+# --------------------------------------------------------------------------- Batch
+PARTS_WF = ('self.parts is not None and alive(self.parts) and self.parts is not self._value_history and '
+            'self.parts is not self._routing_history and self.parts is not self._group_pathing and '
+            'all(p is not None and alive(p) for p in self.parts)')
+invariant('Batch', 'part_list_exists', PARTS_WF)
+
+
+def _each_part(kind, arg, n0='old(trace_len())', first=0):
+    """`kind`(arg) was called once on every contained part, in list order (ghost trace of the activation)"""
+    return (f'all(trace_kind({n0} + {first} + j) == fn_id("{kind}") and trace_recv({n0} + {first} + j) is self.parts[j] and '
+            f'    {arg.format(i=f"{n0} + {first} + j")} for j in range(len(self.parts)))')
+
+
+contract('Batch.initialize', props=['C17', 'C20'], args={'env': 'ref:Environment'}, modular=True, invariants='prove_only',
+         requires={'part_list_exists': PARTS_WF},
+         raises={'AssertionError': ('env is not None and self._env is not None', {}), 'TypeError': ('env is None', {})},
+         ensures={'batch_itself_initialised': 'self._env is env and self._value == self._initial_value and '
+                                              'len(self._value_history) == 0',
+                  'every_part_initialised_once_in_order_with_the_same_env':
+                      'trace_len() == old(trace_len()) + len(self.parts) and ' +
+                      _each_part('initialize', 'trace_ref({i}, 0) is env'),
+                  'contents_unchanged': 'self.parts is old(self.parts) and seq(self.parts) == old(seq(self.parts))'},
+         modifies=['self._env', 'self._value', 'self._value_history', '$trace'])
+loop('Batch.initialize', 1, 'for p in self.parts',
+     {'prefix_initialised': 'trace_len() == at_loop_entry(trace_len()) + k and '
+                            'all(trace_kind(at_loop_entry(trace_len()) + j) == fn_id("initialize") and '
+                            '    trace_recv(at_loop_entry(trace_len()) + j) is self.parts[j] and '
+                            '    trace_ref(at_loop_entry(trace_len()) + j, 0) is env for j in range(k))'},
+     modifies=['$trace'], index='k')
+
+# --------------------------------------------------------------------------- move leaves from the input to the output side
+# g_k = number of leaves moved by this activation.  With
+#     IN(i)   = i-th leaf of the input at entry   (the part itself for a single part, parts[i] for a batch), N_IN leaves
+#     M0      = number of parts in the batch under construction at entry
+# the loop keeps:  input = IN[g_k:], output side = (batch under construction at entry) ++ IN[:g_k]    (element-wise)
+ghost_after('PartBatcher._try_move_part_to_output', '<entry>', g_k='0')
+ghost_after('PartBatcher._try_move_part_to_output', 'self._add_part_to_output(part_in_transition)', g_k='g_k + 1')
+
+
+def _moved(at):
+    """element-wise statement of  pending' == pending  after g_k leaves were moved; `at` = old / at_loop_entry"""
+    in_is_batch = f'{at}(typed(self._part, "Batch"))'
+    n_in = f'{at}(ite(typed(self._part, "Batch"), len(bparts(self._part)), 1))'
+    in_at = lambda i: f'{at}(ite(typed(self._part, "Batch"), bparts(self._part)[{i}], self._part))'
+    m0 = f'{at}(ite(self._in_progress_batch is None, 0, len(self._in_progress_batch.parts)))'
+    return {
+        'moved_count_in_range': f'0 <= g_k and g_k <= {n_in}',
+        'input_is_the_unmoved_suffix':
+            f'ite(g_k == {n_in}, self._part is None, self._part is {at}(self._part)) and '
+            f'implies({in_is_batch}, len({at}(bparts(self._part))) == {n_in} - g_k and '
+            f'  all({at}(bparts(self._part))[i - g_k] is {in_at("i")} for i in range(g_k, {n_in})))',
+        'single_mode_outputs_the_first_leaf':
+            f'implies(isnone(self._output_batch_size), g_k <= 1 and self._in_progress_batch is None and '
+            f'  ite(g_k == 1, self._output is {in_at("0")}, self._output is None))',
+        'batch_mode_collects_the_moved_prefix_behind_what_was_collected':
+            f'implies(not isnone(self._output_batch_size) and g_k >= 1, '
+            f'  {RECV} is not None and alive({RECV}) and exact_type({RECV}, "Batch") and '
+            f'  ite({at}(self._in_progress_batch is None), not {at}(alive({RECV})), {RECV} is {at}(self._in_progress_batch)) and '
+            f'  len({RECV}.parts) == {m0} + g_k and '
+            f'  all({RECV}.parts[j] is {at}(self._in_progress_batch.parts[j]) for j in range({m0})) and '
+            f'  all({RECV}.parts[{m0} + i] is {in_at("i")} for i in range(g_k)))',
+        'batch_mode_nothing_moved_nothing_changed':
+            f'implies(not isnone(self._output_batch_size) and g_k == 0, self._output is None and '
+            f'  self._in_progress_batch is {at}(self._in_progress_batch) and '
+            f'  implies(self._in_progress_batch is not None, '
+            f'          seq(self._in_progress_batch.parts) == {at}(seq(self._in_progress_batch.parts))))',
+        'batch_mode_output_is_a_full_batch_of_exactly_n':
+            f'implies(not isnone(self._output_batch_size), {m0} + g_k <= self._output_batch_size and '
+            f'  iff(self._output is not None, {m0} + g_k == self._output_batch_size) and '
+            f'  iff(self._in_progress_batch is None, {m0} + g_k == self._output_batch_size or {m0} + g_k == 0))',
+    }
+
+
+ACTIVE = 'old(operational(self) and self._part is not None and self._output is None)'
+EMPTY_IN = 'old(typed(self._part, "Batch") and len(bparts(self._part)) == 0)'
+contract('PartBatcher._try_move_part_to_output', props=['C17'], args={},
+         requires={'initialised': 'self._env is not None and alive(self._env)', 'clock_nonneg': 'self._env._now >= 0'},
+         ensures=dict(
+             {f'moves/{k}': f'implies({ACTIVE} and not {EMPTY_IN}, {v})' for k, v in _moved('old').items()},
+             does_nothing_unless_operational_with_input_and_free_output=
+             f'implies(not {ACTIVE}, g_k == 0 and self._part is old(self._part) and self._output is old(self._output) and '
+             '  self._in_progress_batch is old(self._in_progress_batch) and trace_len() == old(trace_len()) and '
+             '  implies(self._part is not None and typed(self._part, "Batch"), seq(bparts(self._part)) == old(seq(bparts(self._part)))) and '
+             '  implies(self._in_progress_batch is not None, '
+             '          seq(self._in_progress_batch.parts) == old(seq(self._in_progress_batch.parts))))',
+             empty_input_batch_is_discarded=
+             f'implies({ACTIVE} and {EMPTY_IN}, g_k == 0 and self._part is None and self._output is None and '
+             '  self._in_progress_batch is old(self._in_progress_batch) and trace_len() == old(trace_len()) and '
+             '  implies(self._in_progress_batch is not None, '
+             '          seq(self._in_progress_batch.parts) == old(seq(self._in_progress_batch.parts))))',
+             moves_until_output_filled_or_input_exhausted=
+             f'implies({ACTIVE} and not {EMPTY_IN}, g_k >= 1 and (self._output is not None or self._part is None))',
+             one_pass_event_now_iff_output_got_filled=
+             'trace_len() == old(trace_len()) + ite(old(self._output) is None and self._output is not None, 1, 0) and '
+             'implies(old(self._output) is None and self._output is not None, '
+             '  not self._waiting_for_downstream_space and '
+             '  trace_kind(old(trace_len())) == fn_id("schedule_event") and trace_recv(old(trace_len())) is self._env and '
+             '  trace_real(old(trace_len()), 0) == self._env._now and trace_real(old(trace_len()), 1) == self._id and '
+             '  trace_fn(old(trace_len())) == method(self, "_pass_part_downstream") and trace_real(old(trace_len()), 2) == 7)'),
+         modifies=['self._part', 'self._output', 'self._in_progress_batch', 'bparts(self._part)[]',
+                   'self._in_progress_batch.parts[]', 'self._waiting_for_downstream_space', '*.Asset._id_counter', '$trace'])
+loop('PartBatcher._try_move_part_to_output', 1, 'while self._output == None and self._part != None',
+     dict(_moved('at_loop_entry'), **B_INVS,
+          entered_with_input='at_loop_entry(self._part is not None and self._output is None and '
+                             '              implies(typed(self._part, "Batch"), len(bparts(self._part)) >= 1))',
+          no_external_calls='trace_len() == at_loop_entry(trace_len())'),
+     modifies=['self._part', 'self._output', 'self._in_progress_batch', 'bparts(self._part)[]',
+               'self._in_progress_batch.parts[]', '*.Asset._id_counter', '$trace'])
